@@ -396,6 +396,14 @@ func (e *Engine) specialObligations(name, prop string) ([]*Obligation, []string,
 	switch name {
 	case "encap":
 		return e.encapObligations(prop), nil, nil
+	case "readers":
+		var obs []*Obligation
+		for _, ob := range e.readersObligations(prop) {
+			if obBelongs(ob, prop) {
+				obs = append(obs, ob)
+			}
+		}
+		return obs, nil, nil
 	}
 	return nil, []string{"unknown special generator " + name}, nil
 }
